@@ -24,6 +24,7 @@ RULE = (
     "keep their own sign, zero columns give 0. Non-trivial: conflicting rows (mgda/cagrad), >=1 projection and a "
     "schedule-dependent result (pcgrad), a mixed-sign column with a leak not in {0,1} (graddrop), m>=2 (random). "
     "Distinct = distinct case description."
+    " One CAGrad case in five and one MGDA / Random / GradDrop case in 14 is widened by 5000 / 70 000 columns."
 )
 ASSUMPTIONS = [
     "PCGrad draws its orders through torch.randperm (scripted by patching that public function for the call); if the "
